@@ -38,6 +38,7 @@ FIXES = [
     ("fix: record the exchanged price as the request fee", "D15", ["C01", "C02", "C06", "C07", "C19"], "regress/C01/d15-exchanged-price-charged-fee-one-recorded.json"),
     ("fix: one provider without an exchange rate", "D16", ["C06"], "regress/C06/d16-unpriceable-provider-blocks-batch.json"),
     ("fix: key an owner's earned fees by denom", "D17", ["C18"], "regress/C18/d17-owner-earnings-key-ignores-denom.json"),
+    ("fix: drop an owner's earned-fee record of a denom", "D18", ["C13"], "regress/C13/d18-stale-owner-total-after-partial-withdrawal.json"),
 ]
 
 
